@@ -364,6 +364,10 @@ class DiscretizedSpace(TensorSpace):
                 inp, self.domain, out_dtype=self.dtype,
             )
             sampled = point_collocation(func, self.meshgrid, **kwargs)
+            if any(np.may_share_memory(sampled, xi) for xi in self.meshgrid):
+                # The function returned (a view of) its input, do not let
+                # the new element alias the grid of this space
+                sampled = sampled.copy()
             return self.element_type(
                 self, self.tspace.element(sampled, order=order)
             )
